@@ -259,7 +259,7 @@ theorem generated_shape_methods (c : Calendar) (hc : WF c) (y : Int) (hy : InI32
     Gen.monthShapeLen ⟨c, y, m, s⟩ = some s.len
     ∧ Gen.monthShapeNthDay ⟨c, y, m, s⟩ n = some (s.nthDay n)
     ∧ Gen.monthShapeDayOrdinalErr ⟨c, y, m, s⟩ n = some (s.dayOrdinalErr y m n)
-    ∧ Gen.monthShapeGap ⟨c, y, m, s⟩ = some s.gap
+    ∧ Gen.monthShapeGap ⟨c, y, m, s⟩ = some (s.gap.map fun p => RangeIncl.new p.1 p.2)
     ∧ Gen.monthShapeNthDate ⟨c, y, m, s⟩ n = some (MonthShape.nthDate ⟨c, y, m, s⟩ n)
     ∧ Gen.monthShapeContains ⟨c, y, m, s⟩ n = s.contains n
     ∧ Gen.monthShapeFirstDay ⟨c, y, m, s⟩ = s.firstDay ∧ Gen.monthShapeLastDay ⟨c, y, m, s⟩ = s.lastDay
@@ -269,7 +269,7 @@ theorem generated_shape_methods (c : Calendar) (hc : WF c) (y : Int) (hy : InI32
   · rw [Gen.monthShapeLen_eq]; exact h1
   · rw [Gen.monthShapeNthDay_eq]; exact h2
   · rw [Gen.monthShapeDayOrdinalErr_eq]; exact h3
-  · rw [Gen.monthShapeGap_eq]; exact h4
+  · rw [Gen.monthShapeGap_eq, h4]; rfl
   · rw [Gen.monthShapeNthDate_eq _ (Gen.WF.gapOrdered hc)]; exact nthDate_no_panic c hc y hy m s hs n hn
   · exact Gen.monthShapeContains_eq _ n
   · exact Gen.monthShapeFirstDay_eq _
